@@ -156,3 +156,47 @@ if __name__ == "__main__":
         json.dump(tables(sys.argv[2]), open(sys.argv[3], "w"))
     elif sys.argv[1] == "perturb":
         perturb(sys.argv[2], sys.argv[3], sys.argv[4], int(sys.argv[5]))
+
+
+def fault_base(path):
+    """Description of a real file for spec/Faults.tla: header lines with kinds, cut points, text ranges."""
+    b = open(path, "rb").read()
+    head, data, off = split_file(b)
+    lines = head.split("\n")
+    assert lines[-1] == "", "header must end with a newline"
+    lines = lines[:-1]
+    kv = []
+    cuts = [off]
+    texts = []
+    for line in lines:
+        if line.startswith("["):
+            kv.append({"k": line, "v": "", "kind": "sec", "nums": []})
+            continue
+        k, v = line.split(":", 1)
+        kind, nums = "str", []
+        if re.fullmatch(r"(SAMPLING_FREQUENCY|FRAME_PERIOD|NUM_STATES|NUM_STREAMS|VECTOR_LENGTH\[\w+\]|NUM_WINDOWS\[\w+\])", k):
+            kind, nums = "int", [int(v)]
+        elif re.fullmatch(r"(IS_MSD|USE_GV)\[\w+\]", k):
+            kind = "bool"
+        elif k == "STREAM_TYPE":
+            kind = "names"
+        elif k == "GV_OFF_CONTEXT":
+            kind = "pats"
+        elif k.startswith("OPTION["):
+            kind = "opts"
+        elif k.startswith("STREAM_WIN["):
+            kind = "ranges"
+            for w in v.split(","):
+                lo, hi = rng(w)
+                nums += [lo, hi]
+                cuts += [off + lo, off + hi + 1]
+                texts.append({"lo": off + lo, "hi": off + hi})
+        elif re.fullmatch(r"(DURATION|STREAM|GV)_(PDF|TREE)(\[\w+\])?", k):
+            kind = "range"
+            lo, hi = rng(v)
+            nums = [lo, hi]
+            cuts += [off + lo, off + hi + 1]
+            if "TREE" in k:
+                texts.append({"lo": off + lo, "hi": off + hi})
+        kv.append({"k": k, "v": v, "kind": kind, "nums": nums})
+    return {"kv": kv, "cuts": sorted(set(cuts)), "total": len(b), "texts": texts}
